@@ -397,3 +397,65 @@ func itoa(v int64) string {
 	}
 	return string(b)
 }
+
+// Shrink returns a deep copy of v with the same shape (same tags, same compound
+// keys, same list element tags) in which arrays and lists are cut to a random
+// shorter length (possibly empty, possibly unchanged) and scalars take new
+// values. Decoding v and then Shrink(v) into one receiver exercises receivers
+// that already hold longer data.
+func Shrink(r *vm.Rand, v *refnbt.Value) *refnbt.Value {
+	o := &refnbt.Value{Tag: v.Tag, Elem: v.Elem}
+	cut := func(n int) int {
+		if n == 0 {
+			return 0
+		}
+		switch r.Intn(4) {
+		case 0:
+			return 0
+		case 1:
+			return n
+		}
+		return r.Intn(n)
+	}
+	switch v.Tag {
+	case refnbt.Byte:
+		o.I = int64(int8(r.Uint64()))
+	case refnbt.Short:
+		o.I = int64(int16(r.Uint64()))
+	case refnbt.Int:
+		o.I = int64(int32(r.Uint64()))
+	case refnbt.Long:
+		o.I = int64(r.Uint64())
+	case refnbt.Float:
+		o.F32 = v.F32 ^ 0x00400001
+	case refnbt.Double:
+		o.F64 = v.F64 ^ 0x0008000000000001
+	case refnbt.String:
+		o.S = v.S[:cut(len(v.S))]
+	case refnbt.ByteArray:
+		o.Bytes = append([]byte{}, v.Bytes[:cut(len(v.Bytes))]...)
+		for i := range o.Bytes {
+			o.Bytes[i] ^= 0x55
+		}
+	case refnbt.IntArray:
+		o.Ints = append([]int32{}, v.Ints[:cut(len(v.Ints))]...)
+		for i := range o.Ints {
+			o.Ints[i] ^= 0x55555555
+		}
+	case refnbt.LongArray:
+		o.Longs = append([]int64{}, v.Longs[:cut(len(v.Longs))]...)
+		for i := range o.Longs {
+			o.Longs[i] ^= 0x5555555555555555
+		}
+	case refnbt.List:
+		n := cut(len(v.List))
+		for i := 0; i < n; i++ {
+			o.List = append(o.List, Shrink(r, v.List[i]))
+		}
+	case refnbt.Compound:
+		for _, e := range v.Comp {
+			o.Comp = append(o.Comp, refnbt.Entry{Name: e.Name, V: Shrink(r, e.V)})
+		}
+	}
+	return o
+}
